@@ -103,8 +103,17 @@ func build(path []partlib.Op) (*wld, string, string) {
 			if _, k, d := applyAll(b, path[:c+1], entries[:c+1], c, "B"); k != "" { // one more entry is enough to change the contents
 				return w, k, d
 			}
-			if _, err := b.P.Snapshot(); err != nil {
+			snap2, err := b.P.Snapshot()
+			if err != nil {
 				return w, "snapshot-error", fmt.Sprintf("cut %d: second snapshot failed: %v", c, err)
+			}
+			// the second snapshot of the same replica (one entry after the first) is what that replica holds NOW
+			e := partlib.NewReplica()
+			if err := e.P.Restore(snap2); err != nil {
+				return w, "restore-error:second-snapshot", fmt.Sprintf("cut %d: restoring the replica's second snapshot (%d bytes, one entry after its first): %v", c, len(snap2), err)
+			}
+			if ce, cb := contents(e.P.Index().VerifDump()), contents(b.P.Index().VerifDump()); ce != cb {
+				return w, "second-snapshot-differs-from-its-replica", fmt.Sprintf("cut %d: the replica snapshotted, applied %v and snapshotted again; it holds %s, its second snapshot restores to %s", c, path[c], cb, ce)
 			}
 			if !bytes.Equal(keep, snap) {
 				return w, "earlier-snapshot-bytes-changed", fmt.Sprintf("cut %d: the %d bytes returned by the snapshot at the cut were overwritten when the replica took its next snapshot", c, len(snap))
@@ -186,7 +195,7 @@ func main() {
 			ev.Tool("%v", err)
 		}
 		json.Unmarshal(b, &f)
-		partlib.MBMetas()
+		partlib.WSMetas()
 		_, k, d := build(f.Replay.Ops)
 		if k != "" {
 			fmt.Printf("VIOLATION property=%s replay=%s\n  %s: %s\n", ev.As("C04"), os.Args[2], k, d)
@@ -230,15 +239,17 @@ func main() {
 	run := ev.Start("C04", "model_checking")
 	// directed logs outside the BFS alphabet: multi-byte metadata keys and values on both sides of the byte limits of the
 	// snapshot format (what a character count would let through cannot be restored), every cut point as for any other log
-	partlib.MBMetas()
+	partlib.WSMetas()
 	directed := 0
 	for _, lg := range [][]partlib.Op{
 		{{"ins", []partlib.ItemSpec{{0, 0, 9}}}, {"ins", []partlib.ItemSpec{{1, 1, 8}}}, {"upd", []partlib.ItemSpec{{0, 1, 8}}}, {"upd", []partlib.ItemSpec{{0, 1, 11}}}, {"upd", []partlib.ItemSpec{{0, 0, 10}}}},
 		{{"bins", []partlib.ItemSpec{{0, 0, 8}, {1, 1, 9}, {2, 0, 10}}}, {"bupd", []partlib.ItemSpec{{1, 0, 10}, {1, 1, 11}, {2, 0, 9}}}, {"brem", []partlib.ItemSpec{{1, 0, 0}}}},
+		// keys that differ only in surrounding white space are different keys, on every replica and after every restore
+		{{"ins", []partlib.ItemSpec{{0, 0, 1}}}, {"upd", []partlib.ItemSpec{{0, 1, 12}}}, {"ins", []partlib.ItemSpec{{1, 1, 13}}}, {"upd", []partlib.ItemSpec{{1, 0, 12}}}},
 	} {
 		directed += len(lg)
 		if _, k, d := build(lg); k != "" {
-			run.Violation(k+":multi-byte-metadata", fmt.Sprintf("%v: %s", lg, d), map[string]interface{}{"ops": lg})
+			run.Violation(k+":directed-metadata", fmt.Sprintf("%v: %s", lg, d), map[string]interface{}{"ops": lg})
 		}
 	}
 	const n = 16
